@@ -31,12 +31,15 @@ CLAIMED = {
 }
 
 CLAIMED['C02'] = dict(
-    text='Lean theorem fast_exec_eq_spec: for every simple op and concat, all widths and in-range values, the Python '
-         'expression FastSimulation emits (templates, mask statement and _no_mask_bitwidth table regenerated from '
-         'simulation.py on every run, parsed back with Python precedence) equals the documented op table, hence '
-         'equals Simulation. PARTIAL: select-splitting of FastSimulation and the C backend (limb arithmetic, '
+    text='Lean theorems fast_exec_eq_spec / fast_select_eq_spec: for every simple op, concat AND select (any index '
+         'tuple: runs, reversals, repeats; inner and outer mask elision), all widths and in-range values, the Python '
+         'expression FastSimulation emits (templates, make_split shapes, mask statement and _no_mask_bitwidth table '
+         'regenerated from simulation.py on every run, parsed back with Python precedence) equals the documented op '
+         'table, hence equals Simulation (fast_exec_eq_pysim, fast_select_eq_pysim). The hand-modelled run-splitting '
+         'loop is tied per run to the generated code (pieces parsed out of _compiled() text = model runs) and to the '
+         'values FastSimulation computes. PARTIAL: FastSimulation\'s step loop and the C backend (limb arithmetic, '
          'hash-map memories, input packing) are covered by correspondence against the Spec model only (widths '
-         'across every 64-bit limb boundary); their theorems are still to be added.',
+         'across every 64-bit limb boundary).',
     design='4 C02',
     note=NOTE_COMMON + 'Modelled, not verified: gcc/ctypes/malloc, the inline-asm mul128, exec() of the generated Python.',
     technique='Lean 4 proof over translator-regenerated emitter + differential correspondence with the Spec model')
@@ -94,10 +97,13 @@ CLAIMED['C10'] = dict(
          'every op class, every bitwidth rule, bad/missing parameters) is rejected wherever the net sits, API-shaped '
          'nets are not rejected; block-level model of sanity_check + acyclicity rejects duplicate names and double '
          'drivers; the dependency-order checker is proved sound (isTopo_sound, order-independence of evaluation in '
-         'C01). Correspondence: 11 fault classes injected into live blocks, sanity_check and all three simulator '
+         'C01). Correspondence: 12 fault classes injected into live blocks, sanity_check and all three simulator '
          'constructors must raise, the Lean model must classify every good and faulty block identically; real Block '
-         'iteration under native and hooked tie-breaks is checked to be exactly-once and a dependency order. PARTIAL: '
-         'a theorem about a model of the Block.__iter__ worklist for every pick function is not yet proved.',
+         'iteration under native and hooked tie-breaks is checked to be exactly-once and a dependency order. The '
+         'Block.__iter__ worklist is modelled as a relation (any ready net may be picked): every complete run is a '
+         'schedule (arguments before uses) and a permutation of the nets (iter_order_is_schedule / _permutation), '
+         'which is the well-formedness hypothesis of the run-level theorem of C01. PARTIAL: that the relation is what '
+         'the Python loop does is tied by the order check on real iterations only.',
     design='4 C10',
     note=NOTE_COMMON + 'memory-sync walk and wirevector_by_name consistency are modelled only as far as the generators reach.',
     technique='Lean 4 proof over translator-regenerated sanity rules + fault enumeration as correspondence')
@@ -130,8 +136,10 @@ CLAIMED['C06'] = dict(
          'arithmetic moves the data by the full amount for every data width and every shift-amount width. The real '
          'operator netlists (all operators, helpers, constant-operand kinds) are evaluated in the Lean Spec model and '
          'compared with exact integer arithmetic and with the Lean impl models, exhaustively for small width pairs and '
-         'on boundary/random values up to 130 bits. PARTIAL: theorems for sign extension and the signed_* helpers are '
-         'not yet proved (their models are tied and differentially checked).',
+         'on boundary/random values up to 130 bits. Signed helpers: sign extension keeps the two\'s-complement value at '
+         'every target width; signed_lt is exactly the comparison of the signed values for operands of any two widths '
+         '(the r[-1]^~a[-1]^~b[-1] trick); signed_add is the exact signed sum at max+1 bits. PARTIAL: signed_mult, '
+         'signed_le/gt/ge and the constant shifts have tied models and differential checks but no theorem.',
     design='4 C06',
     note=NOTE_COMMON + 'Python slice -> index list is CPython\'s own range(w)[item].',
     technique='Lean 4 proof (induction over shift stages / index lists) + exhaustive small-width correspondence')
